@@ -136,6 +136,7 @@ fn extra_sets(tier: Tier) -> Vec<(String, Vec<(String, Vec<u8>)>)> {
     }
     let mut pairs: Vec<(String, String)> = vcore::collide::pairs().iter().map(|(_, a, b)| (a.clone(), b.clone())).collect();
     pairs.extend(vcore::sjis::suffix_pairs());
+    pairs.extend(vcore::sjis::case_pairs());
     for (i, (a, b)) in pairs.iter().enumerate() {
         let mut files = vec![(a.clone(), body(0, 5)), (b.clone(), body(1, 33))];
         let ab = format!("{}{}", a, b);
@@ -162,7 +163,26 @@ fn extra_sets(tier: Tier) -> Vec<(String, Vec<(String, Vec<u8>)>)> {
             v.push((format!("a body of {} bytes + {} zero bytes and the body without them", head.len(), k), vec![("long".to_string(), longer), ("short".to_string(), head.clone())]));
         }
     }
-    let (counts, lens, names) = tier.pick((300usize, 200usize, 300usize), (1500, 700, 1200));
+    // a name table of more than 64 KiB with suffix-related / case-related / colliding names on
+    // either side of it (an offset into the name table kept in 16 bits wraps only here)
+    for (k, (a, b)) in [("chapter/map_late.cmp", "map_late.cmp"), ("Map01.cmp", "map01.cmp"), ("攻撃力", "力")].iter().enumerate() {
+        for at_end in [true, false] {
+            let mut files: Vec<(String, Vec<u8>)> = Vec::new();
+            if !at_end {
+                files.push((a.to_string(), body(0, 3)));
+                files.push((b.to_string(), body(1, 5)));
+            }
+            for i in 0..4200usize {
+                files.push((format!("chapter_{:04}/entry_{:04}.dat", i, i), body(i % 4, i % 3)));
+            }
+            if at_end {
+                files.push((a.to_string(), body(0, 3)));
+                files.push((b.to_string(), body(1, 5)));
+            }
+            v.push((format!("4200 files around a related name pair #{} ({})", k, if at_end { "pair last" } else { "pair first" }), files));
+        }
+    }
+    let (counts, lens, names) = tier.pick((300usize, 200usize, 1700usize), (1500, 700, 4400));
     for n in 0..=counts {
         v.push((format!("{} files", n), (0..n).map(|i| (format!("f{}", i), body(i % 4, (i * 7) % 5))).collect()));
     }
